@@ -183,3 +183,45 @@ PLANS['C06'] = dict(run=_c06_run, search=_c06_search, replay=s_text.fault_replay
                          "deletion of every parenthesis/quote); thorough: also random pairs of faults; the real Documenter must raise iff the "
                          "model errs; CLI runs of main() on faulty files must exit non-zero and leave no page; non-trivial = faulty file the "
                          "model rejects", assumptions=TEXT_ASSUME)
+
+
+# ---- C07 --------------------------------------------------------------------------------------------------------------
+import s_rstcheck
+
+
+def _c07_run(tier, seed, out, drv):
+    s_rstcheck.c07_suite(seed, 250 if tier == 'quick' else 5000, out, drv, budget_s=90 if tier == 'quick' else 1500)
+
+
+def _c07_search(tier, seed, out, drv, dis):
+    s_rstcheck.c07_suite(seed + 7919, 1000, out, drv, budget_s=240)
+
+
+PLANS['C07'] = dict(run=_c07_run, search=_c07_search, replay=s_rstcheck.replay, replay_kind='module',
+                    rule="random decorated modules whose doc texts are composed from valid reST blocks (paragraphs, field lists, bullet/"
+                         "enumerated lists, literal blocks, nested note/warning/code directives with indented bodies), every entry kind, class "
+                         "nesting <= 3, single-line arguments; the REAL output is parsed by docutils 0.23 with stub directives/roles; "
+                         "non-trivial = at least one documented item",
+                    assumptions=["'docutils reports no error-level message' is a statement about docutils' parser, which no model here expresses: "
+                                 "the theorems cover containment, order and indentation (indent homomorphism); acceptance is validated by "
+                                 "parsing the real output, not proved", "Sphinx is not installed: module/function/data/py:* directives and the "
+                                 "class/code roles are stubs that parse their content as nested body"])
+
+
+# ---- C16 --------------------------------------------------------------------------------------------------------------
+import s_config
+
+
+def _c16_run(tier, seed, out, drv):
+    s_config.config_suite(seed, tier, out, drv)
+
+
+PLANS['C16'] = dict(run=_c16_run, replay=s_config.replay, replay_kind='config',
+                    rule="EXHAUSTIVE: every option of the input/output/rst sections x every subset of the sources that can set it (user file, -s "
+                         "file, command-line flag) with distinct values (+ relative_to_config for the directory); every wrong-typed value per "
+                         "option in the winning source with a valid lower-priority value present; plus random multi-option combinations; "
+                         "the real main() runs with document() stubbed and HOME/XDG_CONFIG_HOME in the sandbox; non-trivial = some source sets it",
+                    assumptions=["confuse, argparse and PyYAML are trusted third-party code: the theorems state CMinx's decision logic (source order, "
+                                 "templates, filter concatenation, directory resolution); the tie to the real stack is exhaustive enumeration of "
+                                 "the finite configuration space, not proof", "null values in a higher-priority source are outside the quantifier",
+                                 "defaults are read from config_default.yaml at run time"])
